@@ -41,7 +41,7 @@ def build_probe(ctx):
 
 def gen_behaviours(ctx):
     cfg = "MTestSolverGen_%s.cfg" % ("thorough" if ctx.thorough else "quick")
-    r = ctx.tlc("mtest/MTestSolverGenMC", cfg=cfg, workers=1, timeout=1500)
+    r = ctx.tlc("mtest/MTestSolverGenMC", cfg=cfg, workers=1, timeout=3000)
     if r.rc != 0:
         raise Broken("MTestSolverGen failed:\n" + r.out[-2000:])
     cases = []
@@ -276,8 +276,9 @@ def replay(ctx, obligations, sig_prefix):
     cases, g = gen_behaviours(ctx)
     st += g.distinct
     tr += g.generated
-    if not ctx.thorough:
-        cases = cases[:: max(1, len(cases) // 240)]
+    # every behaviour of the model is a candidate; a regular sample is replayed (two mtest runs and a share of a TLC
+    # validation per behaviour): 240 in the quick tier, 6000 in the thorough one
+    cases = cases[:: max(1, len(cases) // (6000 if ctx.thorough else 240))]
     env = core.run_env()
     results = [None] * len(cases)
     with cf.ThreadPoolExecutor(max_workers=14) as ex:
